@@ -294,6 +294,8 @@ def check(col: Collector, tier: str):
                             "taken from it and the explicit depth (e.g. from element_pointer) is ignored", f"{f.module.rel}:{c.lineno}")
     col.add("C06.R5", "cpp_types.terminal", "parsed-type-and-explicit-depth-never-combined", True, "scanned all type constructions")
     from sa.props._tr import import_obligations
+    import_obligations(col, "C06.R6", "c14", lambda o: o.detail == "bare-unfiltered-slot" and "body_include_files" in o.construct,
+                       "the headers a container needs are requested through body_include_files: a template that filters that list leaves some of them out")
     import_obligations(col, "C06.R6", "c14", lambda o: o.construct == "template.atlas:link_libraries",
                        "two libraries rendered without a separator name a library that does not exist")
     from sa.props._tr import check_no_state_on_query_nodes
